@@ -16,6 +16,7 @@ import (
 )
 
 func main() {
+	ssa.DebugSROA = os.Getenv("GODCHECK_DEBUG_SROA") != ""
 	prop := flag.String("property", "", "property id (C01..C20)")
 	tier := flag.String("tier", "quick", "quick|thorough")
 	repo := flag.String("repo", "/repo", "repository root")
@@ -37,6 +38,9 @@ func main() {
 			os.Exit(2)
 		}
 		for _, n := range p.AllFuncNames() {
+			fmt.Println(n)
+		}
+		for _, n := range p.AllTypeNames() {
 			fmt.Println(n)
 		}
 		os.Exit(0)
@@ -99,7 +103,7 @@ func main() {
 			pv := p.Variant(lvl)
 			rv := run(pv)
 			if os.Getenv("GODCHECK_DEBUG_VARIANTS") != "" {
-				fmt.Printf("debug: variant %d: %d failing; inlined %d helpers\n", lvl, rv.Failing(*verif), len(pv.Inlined))
+				fmt.Printf("debug: variant %d: %d failing; inlined %d helpers, %d structs split\n", lvl, rv.Failing(*verif), len(pv.Inlined), pv.Split)
 				for _, o := range rv.Obl {
 					if o.Verdict != core.Held {
 						fmt.Printf("debug:   %s %s :: %v\n", o.Verdict, o.Key, o.Msgs)
